@@ -19,6 +19,8 @@ EXTENDS Integers, Sequences, FiniteSets, TLC, Json, CSV
 CONSTANTS MaxDepth, MaxKids, Names
 \* the variadic constructs that deliberately have no ...Func variant
 NoFuncVariant == {"make"}
+\* "do" is Do(f): it exists only with a callback, which writes the children onto the new statement
+NameFv == {nf \in Names \X BOOLEAN : nf[1] = "do" => nf[2]}
 
 Ev(k, id) == [e |-> k, id |-> id]
 Leaf(id) == [k |-> "leaf", id |-> id]
@@ -28,10 +30,10 @@ RECURSIVE Trees(_, _)
 Trees(d, path) ==
   IF d = 0 THEN {Leaf(path)}
   ELSE {Leaf(path)} \cup
-       UNION { { NodeT(path, n, fv, <<>>) : n \in Names, fv \in BOOLEAN } }
-       \cup UNION { { NodeT(path, n, fv, <<k1>>) : n \in Names, fv \in BOOLEAN, k1 \in Trees(d - 1, path \o ".1") } }
+       UNION { { NodeT(path, nf[1], nf[2], <<>>) : nf \in NameFv } }
+       \cup UNION { { NodeT(path, nf[1], nf[2], <<k1>>) : nf \in NameFv, k1 \in Trees(d - 1, path \o ".1") } }
        \cup (IF MaxKids < 2 THEN {} ELSE
-             UNION { { NodeT(path, n, fv, <<k1, k2>>) : n \in Names, fv \in BOOLEAN,
+             UNION { { NodeT(path, nf[1], nf[2], <<k1, k2>>) : nf \in NameFv,
                        k1 \in Trees(d - 1, path \o ".1"), k2 \in Trees(d - 1, path \o ".2") } })
 
 \* the log a correct library produces while the tree is built
